@@ -85,24 +85,28 @@ Definition inverse_q_of (n : nat) (n_sum idg : list T) : list T :=
 Definition stability_error (n : nat) (inverse m : list T) : T :=
   l21_norm n (msub n (mmul n inverse m) (midentity n)).
 
-Definition decompose_for_tropical (n : nat) (m : list T) (stability : option C)
-  : res (matrix_error + decomposition) :=
-  if Nat.eqb n 0 then Panic 40 (* self.data[0] on an empty matrix *) else
+(* the four fields of an Ok result *)
+Definition decomp_fields (n : nat) (m : list T) : decomposition :=
   let q := cholesky n m in
   let det_q := det_q_of n q in
   let idg := inv_diag_of n q in
-  let determinant := s_mul S det_q det_q in
-  (* det_q == 0 || determinant == 0  (the square can underflow; fix: commit in /repo) *)
-  if s_eqb S det_q (s_zero S) || s_eqb S determinant (s_zero S) then Ok (inl ZeroDet) else
   let inverse_q := inverse_q_of n (n_sum_of n (n_matrix_of n q idg)) idg in
   let q_t_inv := mtranspose n inverse_q in
-  let inverse := mmul n q_t_inv inverse_q in
-  let result := mkDecomp determinant inverse (mtranspose n q) q_t_inv in
+  mkDecomp (s_mul S det_q det_q) (mmul n q_t_inv inverse_q) (mtranspose n q) q_t_inv.
+
+Definition decompose_for_tropical (n : nat) (m : list T) (stability : option C)
+  : res (matrix_error + decomposition) :=
+  if Nat.eqb n 0 then Panic 40 (* self.data[0] on an empty matrix *) else
+  let det_q := det_q_of n (cholesky n m) in
+  (* det_q == 0 || determinant == 0  (the square can underflow; fix: commit in /repo) *)
+  if s_eqb S det_q (s_zero S) || s_eqb S (s_mul S det_q det_q) (s_zero S) then Ok (inl ZeroDet) else
+  let result := decomp_fields n m in
   match stability with
   | None => Ok (inr result)
   | Some tol =>
       (* !(error <= tolerance): a NaN error is rejected (fix: commit in /repo) *)
-      if negb (s_leb S (stability_error n inverse m) (s_of_c S tol)) then Ok (inl Unstable) else Ok (inr result)
+      if negb (s_leb S (stability_error n (d_inverse result) m) (s_of_c S tol))
+      then Ok (inl Unstable) else Ok (inr result)
   end.
 
 End Matrix.
